@@ -177,8 +177,11 @@ def main():
         'assumptions': getattr(mod, 'ASSUMPTIONS', []),
         'wall_s': round(wall, 3), 'violations': violations,
     }
-    os.makedirs(os.path.join(VERIF, 'evidence'), exist_ok=True)
-    with open(os.path.join(VERIF, 'evidence', '%s.json' % pid), 'w') as fh:
+    # the self-validation scripts run the checks against deliberately changed trees: those runs must not
+    # overwrite the evidence of the real tree (VERIF_EVIDENCE_DIR is set by them; never by MANIFEST commands)
+    evdir = os.environ.get('VERIF_EVIDENCE_DIR') or os.path.join(VERIF, 'evidence')
+    os.makedirs(evdir, exist_ok=True)
+    with open(os.path.join(evdir, '%s.json' % pid), 'w') as fh:
         json.dump(ev, fh, indent=1, default=str)
     print('%s: %d obligations, %d discharged, %d violation(s), %.1fs' % (pid, nob, ndis, violations, wall))
     raise SystemExit(1 if violations else 0)
